@@ -377,3 +377,398 @@ Proof.
               ltac:(lia) ltac:(lia))) as [[st E2]|[e E2]]; rewrite E2; cbn [bind]; [right|left; eauto].
   eexists; eexists; eexists; split; [reflexivity|]. auto.
 Qed.
+
+(* ================================================================== *)
+(* GNU 1.0 sparse map: the window                                      *)
+(* ================================================================== *)
+(* dec_go reads positions pos .. pos+n-1 at most *)
+Lemma dec_go_safe : forall n win pos value count,
+  pos + N.of_nat n <= blen win ->
+  exists ov c, dec_go n win pos value count = Ok (ov, c) /\ count <= c /\ c <= count + N.of_nat n.
+Proof.
+  induction n as [|n IH]; intros win pos value count Hb.
+  - exists (Some value), count. split; [reflexivity|lia].
+  - cbn [dec_go]. destruct (bget_lt win pos) as [c Ec]; [unfold blen in Hb; lia|]. rewrite Ec; cbn [bind].
+    destruct (c_isdigit c); [|exists (Some value), count; split; [reflexivity|lia]].
+    destruct (u64max <? value * 10); [exists None, count; split; [reflexivity|lia]|].
+    destruct (u64max <? value * 10 + (c - 48)); [exists None, count; split; [reflexivity|lia]|].
+    destruct (IH win (pos + 1) (value * 10 + (c - 48)) (count + 1)) as [ov [c' [E [H1 H2]]]]; [lia|].
+    exists ov, c'. split; [exact E|lia].
+Qed.
+
+Lemma decode_safe win off len :
+  off + len <= blen win ->
+  exists v ret, decode win off len = Ok (v, ret) /\ (ret <= Z.of_N len)%Z.
+Proof.
+  intro Hb. unfold decode.
+  destruct (dec_go_safe (N.to_nat len) win off 0 0) as [ov [c [E [_ Hc]]]]; [lia|].
+  rewrite E; cbn [bind]. destruct ov as [value|]; [|exists 0, (-1)%Z; split; [reflexivity|lia]].
+  destruct ((c =? 0) || (c =? len)) eqn:Ec; [exists value, 0%Z; split; [reflexivity|lia]|].
+  apply orb_false_iff in Ec. destruct Ec as [_ Ec]. apply N.eqb_neq in Ec.
+  destruct (bget_lt win (off + c)) as [x Ex]; [unfold blen in Hb; lia|]. rewrite Ex; cbn [bind].
+  destruct (x =? 10); eexists; eexists; (split; [reflexivity|lia]).
+Qed.
+
+(* ---- the run of digits at a position, independent of the value arithmetic ---- *)
+Fixpoint drun (n : nat) (s : list N) : nat :=
+  match n, s with
+  | S n', c :: r => if c_isdigit c then S (drun n' r) else 0%nat
+  | _, _ => 0%nat
+  end.
+
+Lemma skipn_lget {A} (l : list A) : forall n x, lget l n = Ok x -> skipn n l = x :: skipn (S n) l.
+Proof.
+  induction l as [|y l IH]; intros n x H; destruct n; simpl in *; try discriminate.
+  - inversion H; reflexivity.
+  - apply IH; exact H.
+Qed.
+
+Lemma dec_go_run : forall n win pos value count v c,
+  dec_go n win pos value count = Ok (Some v, c) ->
+  c = count + N.of_nat (drun n (skipn (N.to_nat pos) win)).
+Proof.
+  induction n as [|n IH]; intros win pos value count v c H.
+  - simpl in H. inversion H; subst. simpl. lia.
+  - cbn [dec_go] in H. destruct (bget win pos) as [x| | |] eqn:Ex; cbn [bind] in H; try discriminate.
+    unfold bget in Ex. rewrite (skipn_lget _ _ _ Ex). cbn [drun].
+    destruct (c_isdigit x); [|inversion H; subst; lia].
+    destruct (u64max <? value * 10); [discriminate|].
+    destruct (u64max <? value * 10 + (x - 48)); [discriminate|].
+    apply IH in H. replace (N.to_nat (pos + 1)) with (S (N.to_nat pos)) in H by lia. lia.
+Qed.
+
+Lemma drun_le n s : (drun n s <= n)%nat.
+Proof. revert s; induction n as [|n IH]; intros [|c r]; simpl; try lia. destruct (c_isdigit c); [specialize (IH r)|]; lia. Qed.
+
+(* a full run stays a (at least as long) run when more bytes follow *)
+Lemma drun_full_app : forall n s t k, drun n s = n -> (n <= drun (n + k) (s ++ t))%nat.
+Proof.
+  induction n as [|n IH]; intros s t k H; [lia|].
+  destruct s as [|c r]; [simpl in H; lia|]. simpl in *.
+  destruct (c_isdigit c); [|lia]. specialize (IH r t k ltac:(lia)). lia.
+Qed.
+
+(* a run that is empty because of its first byte stays empty *)
+Lemma drun_zero_app : forall n s t k, (0 < n)%nat -> s <> [] -> drun n s = 0%nat -> drun (n + k) (s ++ t) = 0%nat.
+Proof.
+  intros n s t k Hn Hs H. destruct n; [lia|]. destruct s as [|c r]; [congruence|]. simpl in *.
+  destruct (c_isdigit c); [lia|reflexivity].
+Qed.
+
+Lemma skipn_app_le {A} (a b : list A) n : (n <= length a)%nat -> skipn n (a ++ b) = skipn n a ++ b.
+Proof. intro H. rewrite skipn_app. replace (n - length a)%nat with 0%nat by lia. reflexivity. Qed.
+
+(* the window invariant: exactly the first block is loaded and diff is inside it *)
+Definition win_ok (st : nsp) : Prop := blen (ns_win st) = 512 /\ ns_diff st <= 512.
+
+Lemma new_sparse_step_safe st : win_ok st ->
+  (exists e, new_sparse_step st = Err e) \/
+  (exists v st', new_sparse_step st = Ok (v, st') /\ win_ok st' /\ (length (ns_s st') <= length (ns_s st))%nat).
+Proof.
+  intros [Hw Hd]. unfold new_sparse_step.
+  assert (E0 : (512 <? ns_diff st) = false) by (apply N.ltb_ge; exact Hd). rewrite E0.
+  destruct (decode_safe (ns_win st) (ns_diff st) (512 - ns_diff st)) as [v [ret [E Hr]]]; [lia|].
+  rewrite E; cbn [bind].
+  destruct (ret <? 0)%Z eqn:Eneg; [left; eauto|]. apply Z.ltb_ge in Eneg.
+  destruct (0 <? ret)%Z eqn:Epos.
+  { apply Z.ltb_lt in Epos. right. eexists; eexists; split; [reflexivity|].
+    split; [|simpl; lia]. split; simpl; [exact Hw|lia]. }
+  apply Z.ltb_ge in Epos. assert (ret = 0%Z) by lia. subst ret.
+  destruct (ns_rec st <? 512); [left; eauto|].
+  destruct (sread_spec 512 (ns_s st)) as [Hr1 Hr2].
+  destruct (sread 512 (ns_s st)) as [blk s1]. cbn [fst snd] in *.
+  destruct (blen blk <? 512) eqn:Eb; [left; eauto|]. apply N.ltb_ge in Eb.
+  assert (Hblk : blen blk = 512) by (unfold blen in *; lia).
+  assert (Hw2 : blen (ns_win st ++ blk) = 1024) by (rewrite blen_app; lia).
+  destruct (decode_safe (ns_win st ++ blk) (ns_diff st) (1024 - ns_diff st)) as [v2 [ret2 [E2 Hr2']]]; [lia|].
+  rewrite E2; cbn [bind].
+  destruct (ret2 <=? 0)%Z eqn:Ele; [left; eauto|]. apply Z.leb_gt in Ele.
+  (* diff + ret2 >= 512: relate the two scans *)
+  assert (Hlow : 512 <= ns_diff st + Z.to_N ret2).
+  { destruct (N.eq_dec (ns_diff st) 512) as [Ed|Ed]; [lia|].
+    (* unfold both decodes *)
+    unfold decode in E, E2.
+    destruct (dec_go (N.to_nat (512 - ns_diff st)) (ns_win st) (ns_diff st) 0 0) as [[ov1 c1]| | |] eqn:G1;
+      cbn [bind] in E; try discriminate.
+    destruct ov1 as [val1|]; [|inversion E; lia].
+    destruct (dec_go (N.to_nat (1024 - ns_diff st)) (ns_win st ++ blk) (ns_diff st) 0 0) as [[ov2 c2]| | |] eqn:G2;
+      cbn [bind] in E2; try discriminate.
+    destruct ov2 as [val2|]; [|inversion E2; lia].
+    pose proof (dec_go_run _ _ _ _ _ _ _ G1) as R1. pose proof (dec_go_run _ _ _ _ _ _ _ G2) as R2.
+    rewrite skipn_app_le in R2 by (unfold blen in Hw; lia).
+    replace (N.to_nat (1024 - ns_diff st)) with (N.to_nat (512 - ns_diff st) + 512)%nat in R2 by lia.
+    set (n1 := N.to_nat (512 - ns_diff st)) in *.
+    set (sfx := skipn (N.to_nat (ns_diff st)) (ns_win st)) in *.
+    assert (Hsfx : sfx <> []).
+    { intro Hnil. assert (Hl : length sfx = (length (ns_win st) - N.to_nat (ns_diff st))%nat) by (apply skipn_length).
+      rewrite Hnil in Hl. simpl in Hl. unfold blen in Hw. lia. }
+    destruct ((c1 =? 0) || (c1 =? 512 - ns_diff st)) eqn:Ec1.
+    2:{ (* first decode did not return 0: contradiction with ret = 0 *)
+        destruct (bget (ns_win st) (ns_diff st + c1)) as [x| | |]; cbn [bind] in E; try discriminate.
+        destruct (x =? 10); inversion E; lia. }
+    apply orb_true_iff in Ec1.
+    destruct (N.eq_dec c1 (512 - ns_diff st)) as [Efull|Enfull].
+    - (* the run filled the first window *)
+      assert (Hfull : drun n1 sfx = n1) by (unfold n1 in *; lia).
+      pose proof (drun_full_app n1 sfx blk 512 Hfull) as Hge.
+      destruct ((c2 =? 0) || (c2 =? 1024 - ns_diff st)); [inversion E2; lia|].
+      destruct (bget (ns_win st ++ blk) (ns_diff st + c2)) as [x| | |]; cbn [bind] in E2; try discriminate.
+      destruct (x =? 10); inversion E2; subst ret2; unfold n1 in *; lia.
+    - (* the byte at diff is not a digit: the second scan finds nothing either *)
+      assert (Hc1 : c1 = 0) by (destruct Ec1 as [H|H]; apply N.eqb_eq in H; [exact H|congruence]).
+      assert (Hz : drun n1 sfx = 0%nat) by lia.
+      assert (Hn1 : (0 < n1)%nat) by (unfold n1; lia).
+      rewrite (drun_zero_app n1 sfx blk 512 Hn1 Hsfx Hz) in R2.
+      assert (c2 = 0) by lia. subst c2. simpl in E2. inversion E2; lia. }
+  assert (E3 : (ns_diff st + Z.to_N ret2 <? 512) = false) by (apply N.ltb_ge; exact Hlow). rewrite E3.
+  right. eexists; eexists; split; [reflexivity|]. unfold win_ok. cbn [ns_win ns_diff ns_s].
+  split; [|lia]. split.
+  - unfold blen in *. rewrite skipn_length. rewrite app_length. lia.
+  - lia.
+Qed.
+
+Lemma new_sparse_loop_graceful : forall n i st pending acc, win_ok st -> graceful (new_sparse_loop n i st pending acc).
+Proof.
+  induction n as [|n IH]; intros i st pending acc Hw; [simpl; done_graceful|].
+  cbn [new_sparse_loop].
+  destruct (new_sparse_step_safe st Hw) as [[e E]|[v [st' [E [Hw' _]]]]]; rewrite E; cbn [bind]; [done_graceful|].
+  destruct pending; apply IH; exact Hw'.
+Qed.
+
+Lemma new_sparse_loop_stream : forall n i st pending acc l st',
+  win_ok st -> new_sparse_loop n i st pending acc = Ok (l, st') -> (length (ns_s st') <= length (ns_s st))%nat.
+Proof.
+  induction n as [|n IH]; intros i st pending acc l st' Hw H.
+  - simpl in H. inversion H; subst. lia.
+  - cbn [new_sparse_loop] in H.
+    destruct (new_sparse_step_safe st Hw) as [[e E]|[v [st1 [E [Hw1 Hs1]]]]]; rewrite E in H; cbn [bind] in H; [discriminate|].
+    destruct pending; apply IH in H; auto; lia.
+Qed.
+
+Lemma read_gnu_new_sparse_safe s rec :
+  (exists e, read_gnu_new_sparse s rec = Err e) \/
+  (exists l rec' s', read_gnu_new_sparse s rec = Ok (l, rec', s') /\ (length s' <= length s)%nat).
+Proof.
+  unfold read_gnu_new_sparse. destruct (rec <? 512); [left; eauto|].
+  destruct (sread_spec 512 s) as [Hr1 Hr2].
+  destruct (sread 512 s) as [blk s1]. cbn [fst snd] in *.
+  destruct (blen blk <? 512) eqn:Eb; [left; eauto|]. apply N.ltb_ge in Eb.
+  assert (Hblk : blen blk = 512) by (unfold blen in *; lia).
+  destruct (decode_safe blk 0 512) as [count [diff [E Hd]]]; [lia|]. rewrite E; cbn [bind].
+  destruct (diff <=? 0)%Z eqn:Ed; [left; eauto|]. apply Z.leb_gt in Ed.
+  destruct ((count =? 0) || (c_TAR_MAX_SPARSE_ENT <? count)); [left; eauto|].
+  set (st0 := mkNsp blk (Z.to_N diff) (rec - 512) s1).
+  assert (Hw : win_ok st0) by (split; simpl; [exact Hblk|lia]).
+  destruct (graceful_shape _ (new_sparse_loop_graceful (N.to_nat (count * 2)) 0 st0 None [] Hw)) as [[[l st'] E2]|[e E2]];
+    rewrite E2; cbn [bind]; [right|left; eauto].
+  eexists; eexists; eexists; split; [reflexivity|].
+  pose proof (new_sparse_loop_stream _ _ _ _ _ _ _ Hw E2) as Hs. simpl in Hs. lia.
+Qed.
+
+(* ================================================================== *)
+(* old GNU sparse maps                                                 *)
+(* ================================================================== *)
+Lemma old_parse_safe : forall n blk off acc,
+  off + N.of_nat n * sizeof_gnu_old_sparse_t <= blen blk ->
+  (exists e, old_parse n blk off acc = Err e) \/ (exists l b, old_parse n blk off acc = Ok (l, b)).
+Proof.
+  induction n as [|n IH]; intros blk off acc Hb; [right; simpl; eauto|].
+  cbn [old_parse].
+  assert (Hsz : sizeof_gnu_old_sparse_t = 24) by reflexivity.
+  destruct (hfield_ok blk (off + soff_offset) slen_offset) as [fo [E1 L1]];
+    [unfold soff_offset, slen_offset in *; lia|]. rewrite E1; cbn [bind].
+  destruct (hfield_ok blk (off + soff_numbytes) slen_numbytes) as [fn [E2 L2]];
+    [unfold soff_numbytes, slen_numbytes in *; lia|]. rewrite E2; cbn [bind].
+  destruct (lget_lt fo 0) as [c1 G1]; [rewrite L1; unfold slen_offset; lia|]. rewrite G1; cbn [bind].
+  destruct (lget_lt fn 0) as [c2 G2]; [rewrite L2; unfold slen_numbytes; lia|]. rewrite G2; cbn [bind].
+  destruct (negb (c_isdigit c1) || negb (c_isdigit c2)); [right; eauto|].
+  destruct (read_number_shape fo) as [[o Eo]|[e Eo]]; [destruct fo; [simpl in G1; discriminate|discriminate]| |];
+    rewrite Eo; cbn [bind]; [|left; eauto].
+  destruct (read_number_shape fn) as [[c Ec]|[e Ec]]; [destruct fn; [simpl in G2; discriminate|discriminate]| |];
+    rewrite Ec; cbn [bind]; [|left; eauto].
+  apply IH. lia.
+Qed.
+
+Lemma old_ext_safe : forall fuel s acc, (length s < fuel)%nat ->
+  (exists e, old_ext fuel s acc = Err e) \/
+  (exists l s', old_ext fuel s acc = Ok (l, s') /\ (length s' <= length s)%nat).
+Proof.
+  induction fuel as [|f IH]; intros s acc Hf; [lia|].
+  cbn [old_ext].
+  destruct (sread_spec sizeof_gnu_old_sparse_record_t s) as [Hr1 Hr2].
+  destruct (sread sizeof_gnu_old_sparse_record_t s) as [blk s1]. cbn [fst snd] in *.
+  destruct (blen blk <? sizeof_gnu_old_sparse_record_t) eqn:Eb; [left; eauto|]. apply N.ltb_ge in Eb.
+  assert (Hblk : blen blk = 512) by (unfold blen, sizeof_gnu_old_sparse_record_t in *; lia).
+  destruct (old_parse_safe (N.to_nat gnu_rec_sparse_count) blk 0 acc) as [[e E]|[l [b E]]];
+    [unfold gnu_rec_sparse_count, sizeof_gnu_old_sparse_t; lia| |]; rewrite E; cbn [bind]; [left; eauto|].
+  destruct (bget_lt blk roff_isextended) as [x Ex]; [unfold blen, roff_isextended in *; lia|]. rewrite Ex; cbn [bind].
+  destruct (negb b && negb (x =? 0)).
+  - destruct (IH s1 l) as [[e E2]|[l2 [s2 [E2 Hs2]]]]; [unfold blen, sizeof_gnu_old_sparse_record_t in *; lia| |].
+    + left; eauto.
+    + right. exists l2, s2. split; [exact E2|lia].
+  - right. exists l, s1. split; [reflexivity|lia].
+Qed.
+
+Lemma read_gnu_old_sparse_safe hdr s : blen hdr = sizeof_tar_header_t ->
+  (exists e, read_gnu_old_sparse hdr s = Err e) \/
+  (exists l s', read_gnu_old_sparse hdr s = Ok (l, s') /\ (length s' <= length s)%nat).
+Proof.
+  intro Hh. unfold read_gnu_old_sparse.
+  destruct (old_parse_safe (N.to_nat gnu_hdr_sparse_count) hdr hoff_gnu_sparse []) as [[e E]|[l [b E]]];
+    [unfold gnu_hdr_sparse_count, sizeof_gnu_old_sparse_t, hoff_gnu_sparse, sizeof_tar_header_t in *; lia| |];
+    rewrite E; cbn [bind]; [left; eauto|].
+  destruct (bget_lt hdr hoff_gnu_isextended) as [x Ex]; [unfold blen in Hh; field_in_header|]. rewrite Ex; cbn [bind].
+  destruct (b || (x =? 0)); [right; exists l, s; split; [reflexivity|lia]|].
+  apply old_ext_safe. lia.
+Qed.
+
+(* ================================================================== *)
+(* read_header                                                         *)
+(* ================================================================== *)
+(* outcome of read_header on a stream: never Crash / OutOfFuel; a returned header consumed input *)
+Definition rh_ok (s : list N) (r : res rh_result) : Prop :=
+  (exists e, r = Err e) \/ r = Ok RH_eof \/
+  (exists h (s' : list N), r = Ok (RH_hdr h s') /\ (length s' < length s)%nat).
+
+Lemma rh_finish_safe h flags ver out s :
+  blen h = sizeof_tar_header_t ->
+  (exists e, rh_finish h flags ver out s = Err e) \/
+  (exists o (s' : list N), rh_finish h flags ver out s = Ok (RH_hdr o s') /\ (length s' <= length s)%nat).
+Proof.
+  intro Hh. unfold rh_finish.
+  destruct (decode_header_safe h flags out ver Hh) as [[o1 E]|[e E]]; rewrite E; cbn [bind]; [|left; eauto].
+  destruct (has_flag flags PAX_SPARSE_GNU_1_X).
+  - destruct (read_gnu_new_sparse_safe s (h_record o1)) as [[e E2]|[l [rec [s' [E2 Hs]]]]]; rewrite E2; cbn [bind];
+      [left; eauto|].
+    right. eexists; eexists; split; [reflexivity|exact Hs].
+  - cbn [bind]. right. eexists; eexists; split; [reflexivity|lia].
+Qed.
+
+Lemma rh_ok_weaken (s s1 : list N) r : (length s1 < length s)%nat ->
+  ((exists e, r = Err e) \/ (exists o (s' : list N), r = Ok (RH_hdr o s') /\ (length s' <= length s1)%nat)) -> rh_ok s r.
+Proof.
+  intros Hl [[e E]|[o [s' [E Hs]]]]; [left; eauto|]. right; right. exists o, s'. split; [exact E|lia].
+Qed.
+
+Lemma rh_ok_shorter (s s1 : list N) r : (length s1 <= length s)%nat -> rh_ok s1 r -> rh_ok s r.
+Proof.
+  intros Hl [[e E]|[E|[o [s' [E Hs]]]]]; [left; eauto|right; left; exact E|].
+  right; right. exists o, s'. split; [exact E|lia].
+Qed.
+
+Lemma rh_loop_safe : forall fuel s out flags pz, (length s < fuel)%nat -> rh_ok s (rh_loop fuel s out flags pz).
+Proof.
+  induction fuel as [|f IH]; intros s out flags pz Hf; [lia|].
+  cbn [rh_loop].
+  destruct (sread_spec sizeof_tar_header_t s) as [Hr1 Hr2].
+  destruct (sread sizeof_tar_header_t s) as [h s1]. cbn [fst snd] in *.
+  destruct (blen h <? sizeof_tar_header_t) eqn:Eb; [right; left; reflexivity|]. apply N.ltb_ge in Eb.
+  assert (Hh : blen h = sizeof_tar_header_t) by (unfold blen, sizeof_tar_header_t in *; lia).
+  assert (Hs1 : (length s1 < length s)%nat) by (unfold blen, sizeof_tar_header_t in *; lia).
+  destruct (all_zero h).
+  { destruct pz; [right; left; reflexivity|]. eapply rh_ok_shorter; [|apply IH]; lia. }
+  destruct (check_version_safe h Hh) as [ver Ev]. rewrite Ev; cbn [bind].
+  assert (Hmain : rh_ok s
+    (do okc <- checksum_valid h;
+     if negb okc then Err e_chksum else
+     do typeflag <- bget h hoff_typeflag;
+     let finish := rh_finish h flags ver in
+     if typeflag =? c_TAR_TYPE_GNU_SLINK then
+       do sz <- num_field h hoff_size hlen_size;
+       if (sz <? 1) || (c_TAR_MAX_SYMLINK_LEN <? sz) then Err e_len else
+       do r <- record_to_memory s1 sz;
+       let (buf, s2) := r in
+       do str <- cstr buf;
+       rh_loop f s2 (set_link out (Some str)) (N.lor flags PAX_SLINK_TARGET) false
+     else if typeflag =? c_TAR_TYPE_GNU_PATH then
+       do sz <- num_field h hoff_size hlen_size;
+       if (sz <? 1) || (c_TAR_MAX_PATH_LEN <? sz) then Err e_len else
+       do r <- record_to_memory s1 sz;
+       let (buf, s2) := r in
+       do str <- cstr buf;
+       rh_loop f s2 (set_name out (Some str)) (N.lor flags PAX_NAME) false
+     else if typeflag =? c_TAR_TYPE_PAX_GLOBAL then
+       do sz <- num_field h hoff_size hlen_size;
+       rh_loop f (sskip (round512 sz) s1) out flags false
+     else if typeflag =? c_TAR_TYPE_PAX then
+       do sz <- num_field h hoff_size hlen_size;
+       if (sz <? 1) || (c_TAR_MAX_PAX_LEN <? sz) then Err e_len else
+       do r <- read_pax_header s1 sz;
+       let '(out', flags', s2) := r in
+       rh_loop f s2 out' flags' false
+     else if typeflag =? c_TAR_TYPE_GNU_SPARSE then
+       do r <- read_gnu_old_sparse h s1;
+       let (l, s2) := r in
+       match l with
+       | [] => Err e_sparse
+       | _ =>
+         do rs <- num_field h hoff_gnu_realsize hlen_gnu_realsize;
+         finish (set_actual (set_sparse out l) rs) s2
+       end
+     else finish out s1)).
+  { destruct (checksum_valid_safe h Hh) as [okc Ec]. rewrite Ec; cbn [bind].
+    destruct (negb okc); [left; eauto|].
+    destruct (bget_lt h hoff_typeflag ltac:(unfold blen in Hh; field_in_header)) as [tf Etf]. rewrite Etf; cbn [bind].
+    cbv zeta.
+    assert (Hsize : (exists v, num_field h hoff_size hlen_size = Ok v) \/ (exists e, num_field h hoff_size hlen_size = Err e))
+      by (apply num_field_safe; field_in_header).
+    (* K and L *)
+    assert (Hlong : forall lim upd fl,
+      rh_ok s (do sz <- num_field h hoff_size hlen_size;
+               if (sz <? 1) || (lim <? sz) then Err e_len else
+               do r <- record_to_memory s1 sz;
+               let (buf, s2) := r in
+               do str <- cstr buf;
+               rh_loop f s2 (upd out (Some str)) (N.lor flags fl) false)).
+    { intros lim upd fl. destruct Hsize as [[sz E]|[e E]]; rewrite E; cbn [bind]; [|left; eauto].
+      destruct ((sz <? 1) || (lim <? sz)); [left; eauto|].
+      destruct (record_to_memory_spec s1 sz) as [[e E2]|[buf [s2 [E2 [Hl [Hz [Hs2 _]]]]]]]; rewrite E2; cbn [bind];
+        [left; eauto|].
+      assert (Hin : In 0 buf).
+      { unfold bget in Hz. apply lget_ok_iff in Hz. eapply nth_error_In; eauto. }
+      destruct (cstr_safe buf Hin) as [str [E3 _]]. rewrite E3; cbn [bind].
+      eapply rh_ok_shorter; [|apply IH]; lia. }
+    destruct (tf =? c_TAR_TYPE_GNU_SLINK); [apply Hlong|].
+    destruct (tf =? c_TAR_TYPE_GNU_PATH); [apply Hlong|].
+    destruct (tf =? c_TAR_TYPE_PAX_GLOBAL).
+    { destruct Hsize as [[sz E]|[e E]]; rewrite E; cbn [bind]; [|left; eauto].
+      pose proof (sskip_le (round512 sz) s1). eapply rh_ok_shorter; [|apply IH]; lia. }
+    destruct (tf =? c_TAR_TYPE_PAX).
+    { destruct Hsize as [[sz E]|[e E]]; rewrite E; cbn [bind]; [|left; eauto].
+      destruct ((sz <? 1) || (c_TAR_MAX_PAX_LEN <? sz)); [left; eauto|].
+      destruct (read_pax_header_safe s1 sz) as [[e E2]|[o' [fl' [s2 [E2 [Hs2 _]]]]]]; rewrite E2; cbn [bind];
+        [left; eauto|].
+      eapply rh_ok_shorter; [|apply IH]; lia. }
+    destruct (tf =? c_TAR_TYPE_GNU_SPARSE).
+    { destruct (read_gnu_old_sparse_safe h s1 Hh) as [[e E2]|[l [s2 [E2 Hs2]]]]; rewrite E2; cbn [bind]; [left; eauto|].
+      destruct l as [|x l]; [left; eauto|].
+      destruct (num_field_safe h hoff_gnu_realsize hlen_gnu_realsize ltac:(field_in_header) ltac:(field_in_header))
+        as [[rs E3]|[e E3]]; rewrite E3; cbn [bind]; [|left; eauto].
+      apply (rh_ok_weaken s s1); [exact Hs1|].
+      destruct (rh_finish_safe h flags ver (set_actual (set_sparse out (x :: l)) rs) s2 Hh) as [[e E4]|[o [s' [E4 Hs']]]];
+        [left; eauto|right]. exists o, s'. split; [exact E4|lia]. }
+    apply (rh_ok_weaken s s1); [exact Hs1|]. apply rh_finish_safe. exact Hh. }
+  destruct ver; try exact Hmain. left; eauto.
+Qed.
+
+Lemma read_header_ok s : rh_ok s (read_header s).
+Proof. unfold read_header. apply rh_loop_safe. lia. Qed.
+
+Lemma read_header_graceful_l s : graceful (read_header s).
+Proof.
+  destruct (read_header_ok s) as [[e E]|[E|[h [s' [E _]]]]]; rewrite E; done_graceful.
+Qed.
+
+Lemma tar_walk_graceful : forall fuel s acc, (length s < fuel)%nat -> graceful (tar_walk fuel s acc).
+Proof.
+  induction fuel as [|f IH]; intros s acc Hf; [lia|].
+  cbn [tar_walk].
+  destruct (read_header_ok s) as [[e E]|[E|[h [s' [E Hs]]]]]; rewrite E; cbn [bind]; try done_graceful.
+  apply IH.
+  pose proof (sskip_le (h_record h) s').
+  pose proof (sskip_le (if h_record h mod 512 =? 0 then 0 else 512 - h_record h mod 512) (sskip (h_record h) s')).
+  lia.
+Qed.
+
+Lemma tar_walk_all_graceful_l s : graceful (tar_walk_all s).
+Proof. unfold tar_walk_all. apply tar_walk_graceful. lia. Qed.
